@@ -741,6 +741,11 @@ class Engine:
             if isinstance(it, Raised):
                 yield st1, it
                 continue
+            if it.ty.kind != "tuple" and isinstance(g.target, ast.Name) and not g.ifs:
+                # [f(x) for x in <list / dict values>] with a pure, single-path element expression: a sequence of
+                # the same length whose i-th element is f(source[i])  (MAP rule)
+                yield from self.map_comprehension(n, g, st1, it)
+                continue
             if it.ty.kind != "tuple" or not isinstance(g.target, ast.Name):
                 raise Unsupported("list comprehension over %s (line %d)" % (it.ty, n.lineno))
 
@@ -781,6 +786,48 @@ class Engine:
                                 yield from go(i + 1, st3, acc)
                 yield from filt(0, st)
             yield from go(0, st1, [])
+
+    def map_comprehension(self, n, g, st, it):
+        if getattr(it, "_values_of", None) is not None:
+            d = it._values_of
+            kt, vt = dict_tys(d.ty)
+            ks = self.dict_key_seq(st, d)
+            _, val = st.dict_get(d)
+            src = fresh(SEQ(vt), "dvals")
+            j = z3.Int("j!dv")
+            st.assume(z3.Length(src.t) == z3.Length(ks.t))
+            st.assume(z3.ForAll([j], z3.Implies(z3.And(0 <= j, j < z3.Length(ks.t)), src.t[j] == z3.Select(val, ks.t[j]))))
+            if vt.kind == "obj":
+                st.assume(z3.ForAll([j], z3.Implies(z3.And(0 <= j, j < z3.Length(src.t)), z3.And(src.t[j] > 0, src.t[j] < st.alloc))))
+        elif it.ty.kind == "set":
+            src = self.set_elem_seq(st, it)
+        else:
+            src = ops.as_seq(st, it)
+        if src.t is None:
+            yield st, self.alloc_list(st, V(SEQ(STR), z3.Empty(z3.SeqSort(z3.StringSort()))), STR)
+            return
+        et_src = src.ty.args[0]
+        e = fresh(et_src, "comp_elem")
+        if et_src.kind == "obj":
+            e = V(Ty("obj", et_src.args, et_src.name), e.t) if hasattr(et_src, "name") else e
+        probe = st.fork()
+        if et_src.is_ref:
+            probe.assume(z3.And(e.t > 0, e.t < probe.alloc))
+        probe.env[g.target.id] = e
+        npc = len(probe.pc)
+        outs = list(self.ev(n.elt, probe))
+        if len(outs) != 1 or isinstance(outs[0][1], Raised):
+            raise Unsupported("comprehension element expression is not a single pure path (line %d)" % n.lineno)
+        st_o, tv = outs[0]
+        if tv.ty.kind in ("opt", "tuple") or tv.t is None:
+            raise Unsupported("comprehension element of type %s (line %d)" % (tv.ty, n.lineno))
+        r = fresh(SEQ(tv.ty), "comp")
+        i = z3.Int("i!comp")
+        st.assume(z3.Length(r.t) == z3.Length(src.t))
+        extra = [z3.substitute(c, (e.t, src.t[i])) for c in st_o.pc[npc + (1 if et_src.is_ref else 0):]]
+        st.assume(z3.ForAll([i], z3.Implies(z3.And(0 <= i, i < z3.Length(src.t)),
+                                             z3.And([r.t[i] == z3.substitute(tv.t, (e.t, src.t[i]))] + extra))))
+        yield st, self.alloc_list(st, r, tv.ty)
 
     # ------------------------------------------------------------------
     # calls
